@@ -133,6 +133,9 @@ pub struct PlanSpec {
     /// column index of the time field (may be ≥ width: no such column)
     pub tf: usize,
     pub width: usize,
+    /// LIMIT / OFFSET of the query (no ORDER BY): applied by the coordinator to the merged groups
+    pub limit: Option<u32>,
+    pub offset: Option<u32>,
 }
 
 impl PlanSpec {
@@ -148,6 +151,18 @@ impl PlanSpec {
             self.metrics.iter().map(|m| m.tok()).collect::<Vec<_>>().join(","),
             self.width
         )
+    }
+    /// trailing note of a model line (ignored by the model: the flows must emit every group
+    /// whatever LIMIT / OFFSET say; the table compared is the merged one before the cap)
+    pub fn note(&self) -> String {
+        match (self.limit, self.offset) {
+            (None, None) => String::new(),
+            (l, o) => format!(
+                " NOTE limit={} offset={}",
+                l.map(|x| x.to_string()).unwrap_or_else(|| "-".into()),
+                o.map(|x| x.to_string()).unwrap_or_else(|| "-".into())
+            ),
+        }
     }
     pub fn has_grouping(&self) -> bool {
         self.group_by.is_some() || self.bucket.is_some()
